@@ -63,8 +63,12 @@ class SymApi(BaseApi):
     # ---- spec vocabulary -------------------------------------------------
     def tbl(self, kind, sym):
         from ..pysym.tables import tbl_value
+        from . import tokparse
+        e = tokparse.single_enum(sym)
+        if e is not None:
+            sym = e
         if isinstance(sym, SEnum):
-            return SReal(tbl_value(kind, sym.z))
+            return SReal(tbl_value(kind, sym.reindex(KIND_LABELS[kind])))
         return SReal(tbl_value(kind, z3.IntVal(KIND_LABELS[kind].index(sym))))
 
     def pw(self, base, n):
@@ -121,7 +125,12 @@ class SymApi(BaseApi):
         return bool(c)
 
     def eq(self, x, y):
-        if isinstance(x, (str, SEnum)) or isinstance(y, (str, SEnum)):
+        from . import tokparse, tokstr
+        if isinstance(x, tokstr.TokStr) and tokparse.single_enum(x) is not None:
+            x = tokparse.single_enum(x)
+        if isinstance(y, tokstr.TokStr) and tokparse.single_enum(y) is not None:
+            y = tokparse.single_enum(y)
+        if isinstance(x, (str, SEnum, tokstr.TokStr)) or isinstance(y, (str, SEnum, tokstr.TokStr)):
             r = (x == y)
             return r
         if isinstance(x, (SBool, bool)) and isinstance(y, (SBool, bool)):
